@@ -78,6 +78,23 @@ func build(sp Spec, o *obs) func() {
 		case "childof-done", "child-racing":
 			parent = scope.New(scope.Params{})
 			cs = parent
+		case "orphan-child":
+			// a child created on a scope that has already ended (it is not registered with the parent, so the
+			// parent's Close does not wait for it) keeps signalling while / after the parent is closed
+			parent = scope.New(scope.Params{})
+			switch sp.Threads[0][0] {
+			case "stop":
+				parent.Stop()
+			case "kill":
+				parent.Kill()
+				o.kills++
+			case "err":
+				e := fmt.Errorf("parent-ended-with-error")
+				o.appended = append(o.appended, e)
+				parent.AppendError(e)
+			}
+			child = scope.NewChild(parent, scope.ChildParams{})
+			cs = child
 		case "child-closing":
 			// a registered child (same context) whose close-time listener fails, closed by one goroutine
 			// while another waits on / closes the PARENT: the parent must report the listener's error
@@ -107,6 +124,9 @@ func build(sp Spec, o *obs) func() {
 		}
 		for ti, ops := range sp.Threads {
 			ti, ops := ti, ops
+			if sp.Kind == "orphan-child" && ti == 0 {
+				continue // (how the parent ended: done above)
+			}
 			wg.Add(1)
 			vsched.Spawn(func() {
 				defer wg.Done()
@@ -209,6 +229,16 @@ func build(sp Spec, o *obs) func() {
 			ch := scope.NewChild(parent, scope.ChildParams{})
 			o.closeErr = ch.Close()
 		}
+		if sp.Kind == "orphan-child" {
+			o.finalErrs = append([]error{}, cs.Errors()...)
+			o.isDone = cs.IsDone()
+			child.Close()
+			if !o.parentClosed {
+				parent.Close()
+			}
+			o.done = true
+			return
+		}
 		if sp.Kind == "child-closing" {
 			if !o.parentClosed {
 				parent.Close()
@@ -251,6 +281,23 @@ func judge(sp Spec, o *obs) func(x *explore.Exec) *explore.Verdict {
 			return &explore.Verdict{Kind: "close-result-while-tasks-signal", Clause: "every appended error is retained and reported by ... waiting on or closing it", Detail: o.note}
 		}
 		want := len(o.appended) + o.kills
+		if sp.Kind == "orphan-child" {
+			for _, e := range o.appended {
+				found := false
+				for _, f := range o.finalErrs {
+					if f == e {
+						found = true
+					}
+				}
+				if !found {
+					return &explore.Verdict{Kind: "error-lost-or-duplicated", Clause: "creating and closing a child of a scope that is already done is equally safe; every appended error is retained", Detail: fmt.Sprintf("error %v appended through a child of an already ended scope is missing from Errors() = %v", e, o.finalErrs)}
+				}
+			}
+			if !o.isDone {
+				return &explore.Verdict{Kind: "done-signal-wrong", Clause: "the done signal fires when the scope is killed, stopped or receives an error", Detail: "the child of an ended scope is not done"}
+			}
+			return nil
+		}
 		if sp.Kind == "child-closing" {
 			// (the commit listeners only fire when nothing failed before; whatever DID fail must be reported)
 			for _, e := range o.appended {
@@ -424,6 +471,13 @@ func programs(thorough bool) []Spec {
 	for _, ev := range []string{"before-close", "commit", "after-commit", "after-close"} {
 		ps = append(ps, Spec{"child-closing", [][]string{{"cclose/" + ev}, {"pwait"}}, b2}, Spec{"child-closing", [][]string{{"cclose/" + ev}, {"pclose"}}, b2},
 			Spec{"child-closing", [][]string{{"cclose/" + ev}, {"pwait"}, {"pclose"}}, b3})
+	}
+	// a child of an ended scope signals while / after the parent is closed
+	for _, end := range []string{"stop", "kill", "err"} {
+		for _, op := range []string{"err", "kill", "stop"} {
+			ps = append(ps, Spec{"orphan-child", [][]string{{end}, {"pclose"}, {op, "errors"}}, b2})
+		}
+		ps = append(ps, Spec{"orphan-child", [][]string{{end}, {"pclose"}, {"err"}, {"kill"}}, b3})
 	}
 	// children of a scope that is done / ends concurrently
 	for _, end := range []string{"stop", "kill", "err"} {
